@@ -81,6 +81,21 @@ claim("C20",
       "Trusted: Lean kernel, 3 standard axioms, extractor, oracle hook. `--` and bare `-` in flag position are outside the domain (stated in the model). The argv of the nested go command is modelled (nestedGoArgs), not executed.",
       "Lean 4 proof (all vectors) + regenerated flag tables + oracle/model differential", "DESIGN.md 5/C20")
 
+claim("C17",
+      "PARTIAL: flock, rename and process scheduling are the OS's and are parameters of the model. Proved (Lean 4) over a small-step model of N processes sharing one linker cache slot (steps regenerated from internal/linker/linker.go and main.go on every run: lock, check stamp, remove, build to the final path, write stamp, unlock; the toolexec link step; crash at any step): for EVERY interleaving and any N, the invariant {at most one process between lock and unlock; the stamp is present only if the binary is complete; whoever is past unlock saw or made a stamped complete linker} is preserved by every step (inv_step), so running_has_complete_linker: no process ever executes a linker that is not complete and stamped, and mutual_exclusion. Tie: the step order is extracted from the source (a reordering - stamp before build, unlock before stamp, missing lock - changes Gen/Steps.lean and breaks the proofs); end to end, groups of 2..4 real garble builds (same project, different flags, different projects; -p 1/4) are started simultaneously over cold-linker, linker-less and warm shared GOCACHE/GARBLE_CACHE/TMPDIR and each binary is compared byte for byte with the one built alone.",
+      "Trusted: Lean kernel, 3 axioms, the step extractor, flock(2)/rename(2) semantics as assumed in Model/Protocol.lean; GOCACHE's own concurrency safety is cmd/go's contract. Schedules are sampled by the e2e runs, not enumerated.",
+      "Lean 4 proof (invariant over all interleavings of the extracted lock protocol) + regenerated step order + concurrent real builds vs. isolated references", "DESIGN.md 5/C17")
+
+claim("C18",
+      "PARTIAL: what a kill leaves on disk is the file system's behaviour. Proved (Lean 4) over the same protocol model with a crash transition at every step: stamp_written_last (in the extracted step order the stamp is the last thing written, after the build completed; a stamp from an earlier build stops validating once the binary is rewritten because since fix 94314bb it records the binary's size - modelled as `stamp := none` at startBuild, exact up to a kill at the instant the partial file has the old size), and rerun_after_crash: from EVERY state reachable with crashes, a fresh process that runs the protocol to completion ends with a complete, stamped linker - a partial binary is never trusted because the stamp (which since fix 94314bb also records the binary size) is missing or stale. Cache entries: C07's load_after_faults covers every subset of deleted/truncated/empty entries. Tie: extracted step order; end to end, a cold build of a generated program is killed (SIGKILL to the whole process group) at evenly spaced instants across its duration (7 quick / 40 thorough, incl. during the linker build), then the same build is re-run on the same caches and must succeed and be byte-identical to an uninterrupted reference.",
+      "Trusted: Lean kernel, 3 axioms, step extractor; assumption: a killed writer leaves a prefix of the file (no torn same-size garbage) - recorded in Model/Protocol.lean. Kill instants are sampled.",
+      "Lean 4 proof (crash at every protocol step, all reachable states) + SIGKILL sweep of real builds and byte comparison of the re-run", "DESIGN.md 5/C18")
+
+claim("C19",
+      "PARTIAL: 'writes nowhere else' is observed, not proved, for the file system at large. Proved (Lean 4) over a model of the -debugdir decision (Model/DebugDir.lean: absent / empty / has marker / anything else incl. regular file and symlink target contents) and of the command skeletons extracted from main.go: foreign_never_wiped and unknown_contents_refused (for EVERY directory content without the marker the command fails before RemoveAll and the content is returned unchanged), owned_is_recreated (marker present or empty/absent: result = marker + complete trees, nothing of the old content), cleanup_registered_first / run_after_cleanup_registered (in build, test, run, reverse, map the deferred RemoveAll of the shared temp dir is registered before the first step that can fail or spawn go). Tie: extracted step lists; end to end, the enumeration command {build, run, test, reverse, map} x outcome {success, go list error, type error, compile error in a dependency, link error, bad flags} x -debugdir target {none, absent, empty, owned with stale files, foreign files, foreign subdirs, symlink to a foreign dir, regular file}: recursive hash of the source tree before/after, TMPDIR must be empty, foreign targets byte-identical and the command refused, owned targets complete (source/ and garbled/ for every package) on a cold and again on a warm run.",
+      "Trusted: Lean kernel, 3 axioms, step extractor, the e2e observer (hashes the source tree, TMPDIR and the debug dir only).",
+      "Lean 4 proof (debugdir ownership decision, cleanup ordering) + regenerated command skeletons + e2e enumeration with tree hashes", "DESIGN.md 5/C19")
+
 ALL = ["C%02d" % i for i in range(1, 21)]
 
 
